@@ -99,6 +99,9 @@ func main() {
 		h.stageModel()
 	}
 	h.replayKnown()
+	if h.want("corpus") {
+		h.stageCorpus()
+	}
 	// deterministic order of failures
 	sort.SliceStable(h.rep.Failures, func(i, j int) bool { return h.rep.Failures[i].Sig < h.rep.Failures[j].Sig })
 	h.rep.Write()
